@@ -194,7 +194,9 @@ theorem c16_falsy_logger_still_logs :
   · intro ev tpl tp ctx collect
     have h1 : loggerFound .falsy = true := by decide
     have h2 : loggerFound .plain = true := by decide
-    simp [logActionWith, logResultProcess, h1, h2]
+    have hf : logResultProcess .falsy tp ctx = logResultProcess .plain tp ctx := by
+      funext m; simp [logResultProcess, h1, h2]
+    simp only [logActionWith, hf]
 
 theorem c16_snapshot_watches (ev : String → Outcome) (segs : List Seg) (hw : allWf segs) (hn : namesNonEmpty segs)
     (r : Rendered) (hr : render ev (String.ofList (unparse segs)) = .ok r) :
